@@ -381,7 +381,8 @@ def run(ctx: C.Ctx):
                        "the statement dispatch chain inside a line (regexes of _parse_simple_lines after block detection): observed through the generated table and the hook, not modelled in Coq",
                        "target(...) lines (captured before block detection)",
                        "non-ASCII identifier characters in header regexes (\\w is modelled for ASCII)",
-                       "optional spacing inside a statement: checked by the re-layout oracle on the real transpiler only"],
+                       "optional spacing inside a statement: checked by the re-layout oracle on the real transpiler only",
+                       "round trip at the level of parse() (column-0 headers, main loop, def, import filter; guard Layout.top_layout_ok): measured on every generated layout (model parse_top of the rendered layout = skeleton), proved only for snippets handed to _parse_simple_lines (C07_roundtrip_partial)"],
         "trusted_base": C.COMMON_TRUSTED + ["harness/gen/dispatch.py + harness/c07_dispatch.py (probe scripts; outcome = exception / identical text / different text)",
                                             "CPython 3.12 tokenize + ast as the reference for Lang/PyLayout.v",
                                             "REDUINO_VERIF hook in parser.py (add-only, commit 3ef1d62)",
